@@ -7,8 +7,11 @@ values), every entry of `_eol_filter_stack_map` and both values of
 `sys.platform == "win32"` (`win`).  "Canonical" is the property's notion:
 content that its own reader leaves unchanged (`readIn stack c = c`).
 "A freshly checked-out tree reports no changes" is, in the model, the equation
-`readIn stack (writeOut stack c) = c` (the dirstate compares the SHA-1 of the
-read-converted file with the recorded one; the SHA-1 itself is not modelled).
+`reportsChange sha stack (sha c) (writeOut stack c) = false` for an abstract hash
+function `sha` (the dirstate compares the SHA-1 of the read-converted file with
+the recorded one; the SHA-1 function itself is a parameter): `checkout_clean`,
+`checkout_dirty_iff`, `checkout_clean_binary`; it follows from the equation
+`readIn stack (writeOut stack c) = c` (`roundtrip_iff`).
 -/
 namespace BreezyVerif.C45
 
@@ -224,5 +227,165 @@ theorem roundtrip_crlf_repo_fixed (c : Bytes) (hc : toCrlf c = c) :
     simp only [toLfGuarded, hn', Bool.false_eq_true, if_false]
     rw [toCrlf_of_noNul h2]
     exact subUnixNl_replCrlfGuarded false c ((subUnixNl_fix_iff false c).1 hc)
+
+/-! ### the filtered SHA-1 provider, `FilteredStat`, and "reports no changes"
+
+`ContentFilterAwareSHA1Provider.sha1` / `.stat_and_sha1` hash
+`hashedText stack disk` and report `statSize stack disk`; the dirstate reports
+a file as modified iff that hash differs from the recorded one
+(`reportsChange`, for an *abstract* hash function `sha : Bytes → H`). -/
+
+/-- **A file is empty iff its conversion is empty**, for every entry of the
+table on both platforms: `FilteredStat`'s `st_size or base.st_size` (a filtered
+size of 0 falls back to the size on disk) can therefore never pick a wrong size. -/
+theorem filtered_size_zero_iff (win : Bool) (name : String) (stack : List Filter)
+    (h : (name, stack) ∈ eolMap win) (d : Bytes) :
+    readIn stack d = [] ↔ d = [] := by
+  simp only [eolMap, List.mem_cons, Prod.mk.injEq, List.mem_nil_iff, or_false] at h
+  rcases h with h | h | h | h | h | h | h <;> obtain ⟨rfl, rfl⟩ := h <;>
+    simp [readIn, inputFile, Conv.apply, Conv.fn, toLf_eq_nil, toCrlf_eq_nil]
+
+/-- **`stat_and_sha1` reports the canonical size and hashes the canonical
+text**, for every entry of the table, both platforms and every file content:
+the `st_size` is the length of the read-converted file (the `or` fallback of
+`FilteredStat` included) and the hashed text is the read-converted file. -/
+theorem stat_size_canonical (win : Bool) (name : String) (stack : List Filter)
+    (h : (name, stack) ∈ eolMap win) (d : Bytes) :
+    statSize stack d = (readIn stack d).length ∧ hashedText stack d = readIn stack d := by
+  refine ⟨?_, hashedText_eq stack d⟩
+  unfold statSize
+  split
+  · rename_i he
+    have : stack = [] := by simpa using he
+    subst this
+    rw [readIn_nil]
+  · unfold filteredStatSize
+    split
+    · rename_i h0
+      have hnil : readIn stack d = [] := List.eq_nil_of_length_eq_zero h0
+      have hd := (filtered_size_zero_iff win name stack h d).1 hnil
+      subst hd
+      rw [hnil]
+    · rfl
+
+/-- `FilteredStat` really falls back: a stack whose reader could empty a file
+would report the disk size — no table entry has such a reader
+(`filtered_size_zero_iff`), this only shows the modelled `or` is not vacuous. -/
+example : filteredStatSize 0 7 = 7 ∧ filteredStatSize 5 7 = 5
+    ∧ statSize [⟨some .toLf, some .toCrlf⟩] [97, 13, 10] = 2
+    ∧ statSize [] [97, 13, 10] = 3 ∧ statSize [⟨some .toLf, some .toCrlf⟩] [] = 0 := by decide
+
+/-- **A fresh checkout reports no changes** (abstract hash).  For every hash
+function, every entry of the table, both platforms and every canonical text `c`
+without NUL (without `\r\r\n` if the setting stores CRLF and writes LF): the
+file written by the checkout hashes to the recorded hash of `c`, i.e. the
+dirstate does not report it as modified; and `stat_and_sha1` reports the
+canonical size `len(c)`. -/
+theorem checkout_clean {H : Type} [DecidableEq H] (sha : Bytes → H)
+    (win : Bool) (name : String) (stack : List Filter) (h : (name, stack) ∈ eolMap win)
+    (c : Bytes) (hn : hasNul c = false) (hc : readIn stack c = c)
+    (hx : lossy stack = true → noCrCrLf false c = true) :
+    reportsChange sha stack (sha c) (writeOut stack c) = false ∧
+    statSize stack (writeOut stack c) = c.length := by
+  have rt := (roundtrip_iff win name stack h c hn hc).2 hx
+  refine ⟨?_, ?_⟩
+  · simp [reportsChange, hashedText_eq, rt]
+  · rw [(stat_size_canonical win name stack h _).1, rt]
+
+/-- non-vacuity of `checkout_clean`: `native-with-crlf-in-repo` is lossy off
+win32, `"a\r\nb\r"` satisfies every hypothesis and is checked out as `"a\nb\r"` -/
+example : ("native-with-crlf-in-repo", [⟨some .toCrlf, some .toLf⟩]) ∈ eolMap false
+    ∧ lossy [⟨some .toCrlf, some .toLf⟩] = true
+    ∧ hasNul [97, 13, 10, 98, 13] = false
+    ∧ readIn [⟨some .toCrlf, some .toLf⟩] [97, 13, 10, 98, 13] = [97, 13, 10, 98, 13]
+    ∧ noCrCrLf false [97, 13, 10, 98, 13] = true
+    ∧ writeOut [⟨some .toCrlf, some .toLf⟩] [97, 13, 10, 98, 13] = [97, 10, 98, 13]
+    ∧ reportsChange id [⟨some .toCrlf, some .toLf⟩] [97, 13, 10, 98, 13] [97, 10, 98, 13] = false
+    ∧ reportsChange id [⟨some .toCrlf, some .toLf⟩] [97, 13, 10, 98, 13] [97, 98, 13] = true := by
+  decide
+
+/-- **Exactly the lossy family is reported as modified.**  If the hash
+separates the two texts involved (the recorded `c` and what the written file
+reads back as), the fresh checkout of a canonical text without NUL reports a
+change iff the setting stores CRLF but writes LF and the text contains
+`\r\r\n`. -/
+theorem checkout_dirty_iff {H : Type} [DecidableEq H] (sha : Bytes → H)
+    (win : Bool) (name : String) (stack : List Filter) (h : (name, stack) ∈ eolMap win)
+    (c : Bytes) (hn : hasNul c = false) (hc : readIn stack c = c)
+    (hinj : sha (readIn stack (writeOut stack c)) = sha c → readIn stack (writeOut stack c) = c) :
+    reportsChange sha stack (sha c) (writeOut stack c) = true ↔
+      (lossy stack = true ∧ noCrCrLf false c = false) := by
+  have rt := roundtrip_iff win name stack h c hn hc
+  simp only [reportsChange, hashedText_eq, bne_iff_ne, ne_eq]
+  constructor
+  · intro hne
+    have : ¬ readIn stack (writeOut stack c) = c := fun e => hne (by rw [e])
+    rw [rt] at this
+    by_cases hl : lossy stack = true
+    · refine ⟨hl, ?_⟩
+      cases hx : noCrCrLf false c with
+      | false => rfl
+      | true => exact absurd (fun _ => hx) this
+    · exact absurd (fun hl' => absurd hl' hl) this
+  · intro ⟨hl, hx⟩ he
+    have := rt.1 (hinj he) hl
+    rw [hx] at this
+    exact Bool.false_ne_true this
+
+/-- **Witness on the checkout level** (the finding, family crlf-repo-cr-cr-lf):
+for every hash that separates `"a\r\n"` from `"a\r\r\n"`, the fresh checkout of
+the canonical text `"a\r\r\n"` under `lf-with-crlf-in-repo` (and
+`native-with-crlf-in-repo` off win32) is reported as modified. -/
+theorem checkout_dirty_witness {H : Type} [DecidableEq H] (sha : Bytes → H)
+    (hsep : sha [97, 13, 10] ≠ sha [97, 13, 13, 10]) :
+    let c : Bytes := [97, 13, 13, 10]
+    ∀ name ∈ ["lf-with-crlf-in-repo", "native-with-crlf-in-repo"],
+      ∃ stack, eolLookup false name = some stack ∧ hasNul c = false ∧ readIn stack c = c ∧
+        reportsChange sha stack (sha c) (writeOut stack c) = true := by
+  intro c name hname
+  refine ⟨[⟨some .toCrlf, some .toLf⟩], ?_, by decide, by decide, ?_⟩
+  · simp only [List.mem_cons, List.mem_nil_iff, or_false] at hname
+    rcases hname with rfl | rfl <;> decide
+  · have e : hashedText [⟨some .toCrlf, some .toLf⟩] (writeOut [⟨some .toCrlf, some .toLf⟩] c)
+        = [97, 13, 10] := by decide
+    simp only [reportsChange, e, bne_iff_ne, ne_eq]
+    exact hsep
+
+/-- the identity "hash" separates the two texts: the hypothesis of
+`checkout_dirty_witness` is satisfiable -/
+example : (id : Bytes → Bytes) [97, 13, 10] ≠ id [97, 13, 13, 10] := by decide
+
+/-- **Binary content is never reported as modified**: content with NUL is
+written to the tree unchanged by every setting on both platforms, hashes to the
+recorded hash (any hash function) and is reported with its own size. -/
+theorem checkout_clean_binary {H : Type} [DecidableEq H] (sha : Bytes → H)
+    (win : Bool) (name : String) (stack : List Filter) (h : (name, stack) ∈ eolMap win)
+    (c : Bytes) (hn : hasNul c = true) :
+    writeOut stack c = c ∧ reportsChange sha stack (sha c) (writeOut stack c) = false ∧
+    statSize stack (writeOut stack c) = c.length := by
+  have hb := binary_untouched win name stack h [c] (by simpa using hn)
+  simp only [List.flatten_cons, List.flatten_nil, List.append_nil] at hb
+  have hw : writeOut stack c = c := hb.1
+  have hr : readIn stack c = c := hb.2
+  refine ⟨hw, ?_, ?_⟩
+  · simp [reportsChange, hashedText_eq, hw, hr]
+  · rw [hw, (stat_size_canonical win name stack h c).1, hr]
+
+/-- non-vacuity: `"a\r\n\0"` under `crlf` -/
+example : ("crlf", [⟨some .toLf, some .toCrlf⟩]) ∈ eolMap true ∧ hasNul [97, 13, 10, 0] = true
+    ∧ writeOut [⟨some .toLf, some .toCrlf⟩] [97, 13, 10, 0] = [97, 13, 10, 0] := by decide
+
+/-- **A path without an `eol` preference** (no rule matches, or the section
+does not set `eol`) gets the empty stack: nothing is converted, the file itself
+is hashed and its own size reported, and a fresh checkout never reports a change. -/
+theorem unset_pref_exact {H : Type} [DecidableEq H] (sha : Bytes → H) (win : Bool) (c : Bytes) :
+    prefStack win none = some [] ∧ prefStack win (some "exact") = some [] ∧
+    writeOut [] c = c ∧ hashedText [] c = c ∧ statSize [] c = c.length ∧
+    reportsChange sha [] (sha c) (writeOut [] c) = false := by
+  cases win <;>
+    simp [prefStack, eolLookup, eolMap, writeOut, outputBytes, hashedText, statSize, reportsChange]
+
+/-- a known key gets the table's stack, an unknown one is an error -/
+theorem prefStack_some (win : Bool) (key : String) : prefStack win (some key) = eolLookup win key := rfl
 
 end BreezyVerif.C45
